@@ -247,40 +247,76 @@ func intReader(kind string) reader {
 		switch kind {
 		case "int8":
 			var v int8
-			return s.ReadASN1Integer(&v), int64(v)
+			if !s.ReadASN1Integer(&v) {
+				return false, nil
+			}
+			return true, int64(v)
 		case "int16":
 			var v int16
-			return s.ReadASN1Integer(&v), int64(v)
+			if !s.ReadASN1Integer(&v) {
+				return false, nil
+			}
+			return true, int64(v)
 		case "int32":
 			var v int32
-			return s.ReadASN1Integer(&v), int64(v)
+			if !s.ReadASN1Integer(&v) {
+				return false, nil
+			}
+			return true, int64(v)
 		case "int64":
 			var v int64
-			return s.ReadASN1Integer(&v), v
+			if !s.ReadASN1Integer(&v) {
+				return false, nil
+			}
+			return true, v
 		case "int":
 			var v int
-			return s.ReadASN1Integer(&v), int64(v)
+			if !s.ReadASN1Integer(&v) {
+				return false, nil
+			}
+			return true, int64(v)
 		case "uint8":
 			var v uint8
-			return s.ReadASN1Integer(&v), uint64(v)
+			if !s.ReadASN1Integer(&v) {
+				return false, nil
+			}
+			return true, uint64(v)
 		case "uint16":
 			var v uint16
-			return s.ReadASN1Integer(&v), uint64(v)
+			if !s.ReadASN1Integer(&v) {
+				return false, nil
+			}
+			return true, uint64(v)
 		case "uint32":
 			var v uint32
-			return s.ReadASN1Integer(&v), uint64(v)
+			if !s.ReadASN1Integer(&v) {
+				return false, nil
+			}
+			return true, uint64(v)
 		case "uint64":
 			var v uint64
-			return s.ReadASN1Integer(&v), v
+			if !s.ReadASN1Integer(&v) {
+				return false, nil
+			}
+			return true, v
 		case "uint":
 			var v uint
-			return s.ReadASN1Integer(&v), uint64(v)
+			if !s.ReadASN1Integer(&v) {
+				return false, nil
+			}
+			return true, uint64(v)
 		case "big":
 			v := new(big.Int)
-			return s.ReadASN1Integer(v), v
+			if !s.ReadASN1Integer(v) {
+				return false, nil
+			}
+			return true, v
 		default:
 			var v []byte
-			return s.ReadASN1Integer(&v), v
+			if !s.ReadASN1Integer(&v) {
+				return false, nil
+			}
+			return true, v
 		}
 	}
 	r.model = func(x *input, _ byte) expect {
@@ -331,16 +367,28 @@ func optIntReader(kind string) reader {
 		switch kind {
 		case "int64":
 			var v int64
-			return s.ReadOptionalASN1Integer(&v, p, int64(-42)), v
+			if !s.ReadOptionalASN1Integer(&v, p, int64(-42)) {
+				return false, nil
+			}
+			return true, v
 		case "uint8":
 			var v uint8
-			return s.ReadOptionalASN1Integer(&v, p, uint8(200)), uint64(v)
+			if !s.ReadOptionalASN1Integer(&v, p, uint8(200)) {
+				return false, nil
+			}
+			return true, uint64(v)
 		case "big":
 			v := new(big.Int)
-			return s.ReadOptionalASN1Integer(v, p, defBig), v
+			if !s.ReadOptionalASN1Integer(v, p, defBig) {
+				return false, nil
+			}
+			return true, v
 		default:
 			var v []byte
-			return s.ReadOptionalASN1Integer(&v, p, []byte{9, 9}), v
+			if !s.ReadOptionalASN1Integer(&v, p, []byte{9, 9}) {
+				return false, nil
+			}
+			return true, v
 		}
 	}
 	r.model = func(x *input, p byte) expect {
@@ -387,7 +435,10 @@ func readers() []reader {
 				var out cryptobyte.String
 				var t asn1.Tag
 				ok := s.ReadAnyASN1(&out, &t)
-				return ok, anyOut{out, byte(t)}
+				if !ok {
+					return false, nil
+				}
+				return true, anyOut{out, byte(t)}
 			},
 			model: func(x *input, _ byte) expect {
 				if x.perr != "" {
@@ -400,7 +451,10 @@ func readers() []reader {
 				var out cryptobyte.String
 				var t asn1.Tag
 				ok := s.ReadAnyASN1Element(&out, &t)
-				return ok, anyOut{out, byte(t)}
+				if !ok {
+					return false, nil
+				}
+				return true, anyOut{out, byte(t)}
 			},
 			model: func(x *input, _ byte) expect {
 				if x.perr != "" {
@@ -428,15 +482,24 @@ func readers() []reader {
 	rs = append(rs,
 		tagged("ReadASN1", false, func(s *cryptobyte.String, p asn1.Tag) (bool, any) {
 			var out cryptobyte.String
-			return s.ReadASN1(&out, p), []byte(out)
+			if !s.ReadASN1(&out, p) {
+				return false, nil
+			}
+			return true, []byte(out)
 		}),
 		tagged("ReadASN1Element", true, func(s *cryptobyte.String, p asn1.Tag) (bool, any) {
 			var out cryptobyte.String
-			return s.ReadASN1Element(&out, p), []byte(out)
+			if !s.ReadASN1Element(&out, p) {
+				return false, nil
+			}
+			return true, []byte(out)
 		}),
 		tagged("ReadASN1Bytes", false, func(s *cryptobyte.String, p asn1.Tag) (bool, any) {
 			var out []byte
-			return s.ReadASN1Bytes(&out, p), out
+			if !s.ReadASN1Bytes(&out, p) {
+				return false, nil
+			}
+			return true, out
 		}),
 	)
 	rs = append(rs,
@@ -456,7 +519,10 @@ func readers() []reader {
 				var out cryptobyte.String
 				var present bool
 				ok := s.ReadOptionalASN1(&out, &present, p)
-				return ok, optOut{out, present}
+				if !ok {
+					return false, nil
+				}
+				return true, optOut{out, present}
 			},
 			model: func(x *input, p byte) expect {
 				if len(x.b) == 0 || x.b[0] != p {
@@ -491,7 +557,10 @@ func readers() []reader {
 	rs = append(rs, reader{name: "ReadASN1Boolean", group: 1,
 		real: func(s *cryptobyte.String, _ asn1.Tag) (bool, any) {
 			var v bool
-			return s.ReadASN1Boolean(&v), v
+			if !s.ReadASN1Boolean(&v) {
+				return false, nil
+			}
+			return true, v
 		},
 		model: func(x *input, _ byte) expect {
 			c, e, ok := x.typed(0x01, "BOOLEAN")
@@ -516,7 +585,10 @@ func readers() []reader {
 		reader{name: "ReadASN1Int64WithTag", group: 1, param: true,
 			real: func(s *cryptobyte.String, p asn1.Tag) (bool, any) {
 				var v int64
-				return s.ReadASN1Int64WithTag(&v, p), v
+				if !s.ReadASN1Int64WithTag(&v, p) {
+					return false, nil
+				}
+				return true, v
 			},
 			model: func(x *input, p byte) expect {
 				if x.perr != "" {
@@ -530,7 +602,10 @@ func readers() []reader {
 		reader{name: "ReadASN1Enum", group: 1,
 			real: func(s *cryptobyte.String, _ asn1.Tag) (bool, any) {
 				var v int
-				return s.ReadASN1Enum(&v), int64(v)
+				if !s.ReadASN1Enum(&v) {
+					return false, nil
+				}
+				return true, int64(v)
 			},
 			model: func(x *input, _ byte) expect {
 				c, e, ok := x.typed(0x0a, "ENUMERATED")
@@ -547,7 +622,10 @@ func readers() []reader {
 		reader{name: "ReadASN1ObjectIdentifier", group: 1,
 			real: func(s *cryptobyte.String, _ asn1.Tag) (bool, any) {
 				var v encoding_asn1.ObjectIdentifier
-				return s.ReadASN1ObjectIdentifier(&v), []int(v)
+				if !s.ReadASN1ObjectIdentifier(&v) {
+					return false, nil
+				}
+				return true, []int(v)
 			},
 			model: func(x *input, _ byte) expect {
 				c, e, ok := x.typed(0x06, "OBJECT IDENTIFIER")
@@ -568,7 +646,10 @@ func readers() []reader {
 		reader{name: "ReadASN1GeneralizedTime", group: 1,
 			real: func(s *cryptobyte.String, _ asn1.Tag) (bool, any) {
 				var v time.Time
-				return s.ReadASN1GeneralizedTime(&v), v
+				if !s.ReadASN1GeneralizedTime(&v) {
+					return false, nil
+				}
+				return true, v
 			},
 			model: func(x *input, _ byte) expect {
 				c, e, ok := x.typed(0x18, "GeneralizedTime")
@@ -582,7 +663,10 @@ func readers() []reader {
 		reader{name: "ReadASN1UTCTime", group: 1,
 			real: func(s *cryptobyte.String, _ asn1.Tag) (bool, any) {
 				var v time.Time
-				return s.ReadASN1UTCTime(&v), v
+				if !s.ReadASN1UTCTime(&v) {
+					return false, nil
+				}
+				return true, v
 			},
 			model: func(x *input, _ byte) expect {
 				c, e, ok := x.typed(0x17, "UTCTime")
@@ -596,7 +680,10 @@ func readers() []reader {
 		reader{name: "ReadASN1BitString", group: 1,
 			real: func(s *cryptobyte.String, _ asn1.Tag) (bool, any) {
 				var v encoding_asn1.BitString
-				return s.ReadASN1BitString(&v), bitOut{v.Bytes, v.BitLength}
+				if !s.ReadASN1BitString(&v) {
+					return false, nil
+				}
+				return true, bitOut{v.Bytes, v.BitLength}
 			},
 			model: func(x *input, _ byte) expect {
 				c, e, ok := x.typed(0x03, "BIT STRING")
@@ -617,7 +704,10 @@ func readers() []reader {
 		reader{name: "ReadASN1BitStringAsBytes", group: 1,
 			real: func(s *cryptobyte.String, _ asn1.Tag) (bool, any) {
 				var v []byte
-				return s.ReadASN1BitStringAsBytes(&v), v
+				if !s.ReadASN1BitStringAsBytes(&v) {
+					return false, nil
+				}
+				return true, v
 			},
 			model: func(x *input, _ byte) expect {
 				c, e, ok := x.typed(0x03, "BIT STRING")
@@ -636,7 +726,10 @@ func readers() []reader {
 		reader{name: "ReadASN1Bytes(OCTET STRING)", group: 1,
 			real: func(s *cryptobyte.String, _ asn1.Tag) (bool, any) {
 				var v []byte
-				return s.ReadASN1Bytes(&v, asn1.OCTET_STRING), v
+				if !s.ReadASN1Bytes(&v, asn1.OCTET_STRING) {
+					return false, nil
+				}
+				return true, v
 			},
 			model: func(x *input, _ byte) expect {
 				c, e, ok := x.typed(0x04, "OCTET STRING")
@@ -661,7 +754,10 @@ func readers() []reader {
 				v := []byte{1, 2, 3}
 				present := false
 				ok := s.ReadOptionalASN1OctetString(&v, &present, p)
-				return ok, optOut{v, present}
+				if !ok {
+					return false, nil
+				}
+				return true, optOut{v, present}
 			},
 			model: func(x *input, p byte) expect {
 				inner, e, present := explicit(x, p, 0x04, "OCTET STRING")
@@ -679,7 +775,10 @@ func readers() []reader {
 		rs = append(rs, reader{name: fmt.Sprintf("ReadOptionalASN1Boolean(default %v)", def), group: 2, param: true,
 			real: func(s *cryptobyte.String, p asn1.Tag) (bool, any) {
 				v := !def
-				return s.ReadOptionalASN1Boolean(&v, p, def), v
+				if !s.ReadOptionalASN1Boolean(&v, p, def) {
+					return false, nil
+				}
+				return true, v
 			},
 			model: func(x *input, p byte) expect {
 				inner, e, present := explicit(x, p, 0x01, "BOOLEAN")
@@ -720,6 +819,8 @@ type checker struct {
 }
 
 type stats struct {
+	cur     int  // reader being run (for the panic report)
+	curP    byte
 	evals   int
 	accepts []int64
 	rejects []int64
@@ -774,17 +875,8 @@ func (k *checker) report(class string, r *reader, b []byte, p byte, extra map[st
 func (k *checker) one(ri int, x *input, p byte, st *stats) {
 	r := &k.rs[ri]
 	s := cryptobyte.String(x.b)
-	var ok bool
-	var val any
-	func() {
-		defer func() {
-			if rec := recover(); rec != nil {
-				k.report(r.name+": panic", r, x.b, p, map[string]any{"panic": fmt.Sprint(rec)})
-				ok, val = false, nil
-			}
-		}()
-		ok, val = r.real(&s, asn1.Tag(p))
-	}()
+	st.cur, st.curP = ri, p
+	ok, val := r.real(&s, asn1.Tag(p))
 	e := r.model(x, p)
 	st.evals++
 	if ok {
@@ -834,6 +926,12 @@ func (k *checker) one(ri int, x *input, p byte, st *stats) {
 
 // checkInput runs every reader of the selected groups on b.
 func (k *checker) checkInput(b []byte, groups [3]bool, st *stats) {
+	defer func() {
+		if rec := recover(); rec != nil {
+			r := &k.rs[st.cur]
+			k.report(r.name+": panic", r, b, st.curP, map[string]any{"panic": fmt.Sprint(rec)})
+		}
+	}()
 	x := &input{b: b}
 	x.tlv, x.perr = derref.Parse(b)
 	var own byte
